@@ -102,8 +102,26 @@ void rep_violation(const char *cls, const char *detail, const char *harness, con
 	write_replay(v, harness, job, n);
 	nviols++;
 }
+/* outcome log (definedness differential, DESIGN 2.7): one line per execution = harness, job, outcome/state hashes.  vcheck
+ * compares the logs of two builds that differ only in how uninitialised automatic variables are filled. */
+static FILE *olog; static int olog_tried;
+static void outcome_log(const run_res_t *r, const char *harness, const void *job, size_t n, const char *human) {
+	if (!olog_tried) { olog_tried = 1; const char *p = getenv("VERIF_OUTCOME_LOG"); if (p && *p) olog = fopen(p, "w"); }
+	if (!olog) return;
+	fprintf(olog, "%s\t", harness);
+	for (size_t i = 0; i < n; i++) fprintf(olog, "%02x", ((const uint8_t *) job)[i]);
+	fputc('\t', olog);
+	const char *l; int any = 0;
+	for (int i = 0; i < 4 && (l = res_line(r, 'O', i)); i++) { fprintf(olog, "O %s|", l); any = 1; }
+	for (int i = 0; i < 4 && (l = res_line(r, 'S', i)); i++) { fprintf(olog, "S %s|", l); any = 1; }
+	if (!any) fprintf(olog, "status=%d", r->status);
+	fputc('\t', olog);
+	for (const char *c = human ? human : ""; *c; c++) fputc(*c == '\n' || *c == '\t' ? ' ' : *c, olog);
+	fputc('\n', olog);
+}
 int rep_collect(const run_res_t *r, const char *harness, const void *job, size_t n, const char *human) {
 	int k = 0;
+	outcome_log(r, harness, job, n, human);
 	if (r->status == 2) { rep_violation("hang wall-clock-timeout", "child exceeded the wall-clock limit (no scheduling point reached)", harness, job, n, human); return 1; }
 	const char *l;
 	for (int i = 0; (l = res_line(r, 'V', i)); i++) {
@@ -154,6 +172,7 @@ void rep_end(void) {
 		fprintf(f, ",\"replay\":"); jstr(f, viols[i].replay); fprintf(f, ",\"count\":%ld}", viols[i].count);
 	}
 	fprintf(f, "]}\n"); fclose(f);
+	if (olog) { fclose(olog); olog = NULL; olog_tried = 0; }
 }
 
 size_t job_build(uint8_t *out, const vs_dev_t *devs, int ndevs, const void *payload, size_t n) {
